@@ -65,6 +65,47 @@ def run(ctx):
                           {"stream": "C20-consts", "input": [w, r]})
         else:
             rt += 1
+    # (1b) the short aliases denote the same constant: `?TAG_x` / `?DW_TAG_x` (and AT, FORM, OP) hold on DW_TAG_x and on no other
+    # constant of the family (its neighbours, and the one whose code equals x's low byte)
+    import collections
+    fam_members = collections.defaultdict(list)
+    for w in consts:
+        m = re.match(r"DW_(TAG|AT|FORM|OP)_(.*)$", w)
+        if m and w in hdr:
+            fam_members[m.group(1)].append((hdr[w], w))
+    alias_lines, alias_meta = [], []
+    wordset = set(words)
+    for fam, mem in fam_members.items():
+        mem.sort()
+        byval = dict(mem)
+        for i, (val, w) in enumerate(mem):
+            short = w[3:]                                   # TAG_x
+            others = set([mem[i - 1][1], mem[(i + 1) % len(mem)][1]])
+            if (val & 0xff) in byval and byval[val & 0xff] != w:
+                others.add(byval[val & 0xff])
+            others.discard(w)
+            others = [o for o in others if hdr[o] != val]
+            for pred in ("?" + short, "?" + w):
+                if pred not in wordset:
+                    continue
+                alias_lines.append("Q - " + zwcorr.hx("[%s %s] length" % (w, pred)))
+                alias_meta.append((w, pred, True))
+                for o in sorted(others):
+                    alias_lines.append("Q - " + zwcorr.hx("[%s %s] length" % (o, pred)))
+                    alias_meta.append((o, pred, False))
+    arecs_, _ = h.run_impl_robust(alias_lines)
+    alias_ok = 0
+    for (cst, pred, want), rec in zip(alias_meta, arecs_):
+        if rec.err or not rec.res:
+            continue
+        m = re.search(r"\|(-?\d+)\)", rec.res[0])
+        got = bool(m and int(m.group(1)) > 0)
+        if got != want and not rec.soft:
+            ctx.violation("the alias %s %s on the constant %s" % (pred, "does not hold" if want else "holds", cst),
+                          {"stream": "C20-aliases", "input": "%s %s" % (cst, pred), "got": got, "expected": want})
+        else:
+            alias_ok += 1
+    ctx.cov["alias_checks_ok"] = alias_ok
     # (2) integers in radix domains: full rendering reads back as an equal value of the same domain
     M64, H63 = 1 << 64, 1 << 63
     vals = sorted(set([0, 1, 2, 7, 8, 9, 10, 15, 16, 255, 256, H63 - 1, H63, H63 + 1, M64 - 1, -1, -2, -8, -16, -255, -H63, -H63 + 1] +
